@@ -23027,4 +23027,67 @@ pub mod verif_hooks {
 		};
 		part.check_onchain_timeout(height)
 	}
+	/// Serialises (`write_claimable_htlc`) and reads back (`<(ClaimableHTLC, u64) as Readable>::read`)
+	/// a claimable HTLC with the given integer fields; returns what came back:
+	/// (value, sender_intended_value, total_msat, total_value_received, cltv_expiry,
+	/// counterparty_skimmed_fee_msat, is keysend, has legacy payment data), or None if it did not decode.
+	pub fn claimable_htlc_roundtrip(
+		value: u64, sender_intended_value: u64, total_msat: u64, total_value_received: Option<u64>,
+		cltv_expiry: u32, skimmed: Option<u64>, keysend: bool, payment_data: bool,
+	) -> Option<(u64, u64, u64, Option<u64>, u32, Option<u64>, bool, bool)> {
+		let prev_hop = HTLCPreviousHopData {
+			prev_outbound_scid_alias: 42,
+			user_channel_id: Some(7),
+			amount_msat: None,
+			htlc_id: 3,
+			incoming_packet_shared_secret: [5; 32],
+			phantom_shared_secret: None,
+			trampoline_shared_secret: None,
+			blinded_failure: None,
+			channel_id: ChannelId([9; 32]),
+			outpoint: OutPoint { txid: bitcoin::Txid::all_zeros(), index: 1 },
+			counterparty_node_id: None,
+			cltv_expiry: Some(cltv_expiry),
+		};
+		let onion_payload = if keysend {
+			OnionPayload::Spontaneous(PaymentPreimage([6; 32]))
+		} else {
+			OnionPayload::Invoice {
+				_legacy_hop_data: if payment_data {
+					Some(msgs::FinalOnionHopData { payment_secret: PaymentSecret([8; 32]), total_msat })
+				} else {
+					None
+				},
+			}
+		};
+		let htlc = ClaimableHTLC {
+			mpp_part: MppPart {
+				prev_hop,
+				cltv_expiry,
+				value,
+				sender_intended_value,
+				timer_ticks: 0,
+				total_value_received,
+			},
+			onion_payload,
+			counterparty_skimmed_fee_msat: skimmed,
+		};
+		let mut buf = Vec::new();
+		write_claimable_htlc(&htlc, total_msat, &mut buf).unwrap();
+		let (back, total): (ClaimableHTLC, u64) = Readable::read(&mut &buf[..]).ok()?;
+		let (is_keysend, has_data) = match back.onion_payload {
+			OnionPayload::Spontaneous(_) => (true, false),
+			OnionPayload::Invoice { _legacy_hop_data } => (false, _legacy_hop_data.is_some()),
+		};
+		Some((
+			back.mpp_part.value,
+			back.mpp_part.sender_intended_value,
+			total,
+			back.mpp_part.total_value_received,
+			back.mpp_part.cltv_expiry,
+			back.counterparty_skimmed_fee_msat,
+			is_keysend,
+			has_data,
+		))
+	}
 }
